@@ -145,6 +145,9 @@ Next ==
      /\ UNCHANGED <<l, c>>
 Spec == Init /\ [][Next]_<<l, c, row, res>>
 
+\* what TLC prints of a state in an error trace (never the programs)
+Shown == [l |-> l, c |-> c, res |-> [id |-> res.id, verdict |-> res.verdict]]
+
 \* C02 at the level of the IR: no optimised build's MIR means something else than the raw MIR
 C02 == res.verdict # "violation"
 AllJudged == TLCGet("stats").distinct = 1 + 2 * N * Chunks
